@@ -1,9 +1,213 @@
 package sx
 
-import "go/types"
+import (
+	"fmt"
+	"go/types"
+	"strings"
+)
 
-// lazyState: lazily materialised symbolic objects (see DESIGN 2.5). Filled in by lazy objects support.
-type lazyState struct{}
+// Lazily materialised symbolic objects (generalised symbolic execution / lazy initialisation).
+//
+// vf_Any(name, &obj, pools) makes obj an unconstrained value: every part of it is a *lazyVal marker
+// until the interpreted code actually uses it. Markers are immutable descriptors keyed by access
+// path; forcing is memoised per path, so copies of a struct agree and pointers alias consistently.
+// Forcing forks: a pointer is nil or a fresh object; a slice is nil, empty or of length 1..max; a map
+// is nil, empty or holds one pooled entry; a string is one of a finite pool chosen by the path's
+// field name; integers and booleans are fresh symbolic variables. Fields the code never reads are
+// never constrained.
 
-// forceLoaded is the hook where a lazily initialised value entering an SSA register is materialised.
-func (m *Machine) forceLoaded(v value, t types.Type) value { return v }
+type lazyVal struct {
+	path string
+	t    types.Type
+	root *lazyRoot
+}
+
+type lazyRoot struct {
+	pools    map[string][]string // field-name suffix -> candidate strings (the first is the default)
+	maxSlice int
+	maxDev   int // at most this many non-default structural choices per path (<0: unlimited)
+}
+
+type lazyState struct {
+	memo map[string]value
+}
+
+const lazyMaxDepth = 14
+
+func pathDepth(p string) int { return strings.Count(p, ".") + strings.Count(p, "[") + strings.Count(p, "*") }
+
+// chooseNamed is a structural decision recorded under a name (as vf_Choose). def is the default
+// alternative (the populated, well-formed shape); a path may deviate from defaults at most
+// root.maxDev times — "at most K simultaneous structural mutations of a populated object".
+func (m *Machine) chooseNamed(root *lazyRoot, name string, n, def int) int {
+	if v, ok := m.chooseVals[name]; ok {
+		return v
+	}
+	k := def
+	if root.maxDev < 0 || m.lazyDev < root.maxDev {
+		k = m.choose(n, "lazy:"+name)
+		if k != def {
+			m.lazyDev++
+		}
+	}
+	m.chooseVals[name] = k
+	m.chooseOrder = append(m.chooseOrder, name)
+	return k
+}
+
+func (r *lazyRoot) poolFor(path string) []string {
+	// longest matching suffix of the field path (after the last '.'), else "*"
+	field := path
+	if i := strings.LastIndex(path, "."); i >= 0 {
+		field = path[i+1:]
+	}
+	field = strings.TrimRight(field, "*")
+	if i := strings.Index(field, "["); i >= 0 {
+		field = field[:i]
+	}
+	if p, ok := r.pools[field]; ok {
+		return p
+	}
+	if p, ok := r.pools["*"]; ok {
+		return p
+	}
+	return []string{"", "a"}
+}
+
+// force materialises one level of a lazy marker.
+func (m *Machine) force(lz *lazyVal) value {
+	if m.lazy == nil {
+		m.lazy = &lazyState{memo: map[string]value{}}
+	}
+	switch t := lz.t.Underlying().(type) {
+	case *types.Struct:
+		s := make(structure, t.NumFields())
+		for i := range s {
+			s[i] = &lazyVal{path: lz.path + "." + t.Field(i).Name(), t: t.Field(i).Type(), root: lz.root}
+		}
+		return s
+	case *types.Array:
+		a := make(array, t.Len())
+		for i := range a {
+			a[i] = &lazyVal{path: fmt.Sprintf("%s[%d]", lz.path, i), t: t.Elem(), root: lz.root}
+		}
+		return a
+	}
+	if v, ok := m.lazy.memo[lz.path]; ok {
+		return v
+	}
+	v := m.force1(lz)
+	m.lazy.memo[lz.path] = v
+	return v
+}
+
+func (m *Machine) force1(lz *lazyVal) value {
+	if pathDepth(lz.path) > lazyMaxDepth {
+		return zero(lz.t)
+	}
+	switch t := lz.t.Underlying().(type) {
+	case *types.Basic:
+		switch {
+		case t.Info()&types.IsBoolean != 0:
+			return &sym{t: m.newVar(lz.path, 0, false), k: types.Bool}
+		case t.Info()&types.IsInteger != 0:
+			k := t.Kind()
+			return &sym{t: m.newVar(lz.path, kindWidth(k), kindSigned(k)), k: k}
+		case t.Kind() == types.String:
+			pool := lz.root.poolFor(lz.path)
+			return pool[m.chooseNamed(lz.root, lz.path+"#s", len(pool), 0)]
+		}
+		return zero(lz.t)
+	case *types.Pointer:
+		if m.chooseNamed(lz.root, lz.path+"#nil", 2, 0) == 1 {
+			return (*value)(nil)
+		}
+		cell := new(value)
+		*cell = &lazyVal{path: lz.path + "*", t: t.Elem(), root: lz.root}
+		if _, isAgg := t.Elem().Underlying().(*types.Struct); isAgg {
+			*cell = m.force((*cell).(*lazyVal))
+		}
+		return cell
+	case *types.Slice:
+		k := m.chooseNamed(lz.root, lz.path+"#len", lz.root.maxSlice+2, 2)
+		switch k {
+		case 0:
+			return []value(nil)
+		case 1:
+			return []value{}
+		}
+		n := k - 1
+		s := make([]value, n)
+		for i := range s {
+			var e value = &lazyVal{path: fmt.Sprintf("%s[%d]", lz.path, i), t: t.Elem(), root: lz.root}
+			switch t.Elem().Underlying().(type) {
+			case *types.Struct, *types.Array:
+				e = m.force(e.(*lazyVal)) // slots hold aggregates by value
+			}
+			s[i] = e
+		}
+		return s
+	case *types.Map:
+		k := m.chooseNamed(lz.root, lz.path+"#map", 3, 2)
+		if k == 0 {
+			return (*omap)(nil)
+		}
+		om := makeMap(t.Key())
+		if k == 2 {
+			kb, kok := t.Key().Underlying().(*types.Basic)
+			if kok && kb.Kind() == types.String {
+				keys := lz.root.poolFor(lz.path + "#key")
+				key := keys[m.chooseNamed(lz.root, lz.path+"#k", len(keys), 0)]
+				var val value = &lazyVal{path: lz.path + "[" + key + "]", t: t.Elem(), root: lz.root}
+				val = m.forceDeep1(val)
+				m.mapInsert(om, key, val)
+			}
+		}
+		return om
+	case *types.Interface:
+		return iface{}
+	}
+	return zero(lz.t)
+}
+
+// forceDeep1 forces a marker that is about to be stored where markers are not tracked (map values)
+func (m *Machine) forceDeep1(v value) value {
+	if lz, ok := v.(*lazyVal); ok {
+		return m.force(lz)
+	}
+	return v
+}
+
+// forceLoaded is the hook where a value entering an SSA register is materialised.
+func (m *Machine) forceLoaded(v value, t types.Type) value {
+	if lz, ok := v.(*lazyVal); ok {
+		return m.force(lz)
+	}
+	return v
+}
+
+// forceAll materialises every marker inside v (used before values reach engine code that walks them).
+func (m *Machine) forceAll(v value, depth int) value {
+	if depth > 40 {
+		return v
+	}
+	switch x := v.(type) {
+	case *lazyVal:
+		return m.forceAll(m.force(x), depth+1)
+	case structure:
+		for i := range x {
+			x[i] = m.forceAll(x[i], depth+1)
+		}
+	case array:
+		for i := range x {
+			x[i] = m.forceAll(x[i], depth+1)
+		}
+	case []value:
+		for i := range x {
+			x[i] = m.forceAll(x[i], depth+1)
+		}
+	case iface:
+		return iface{t: x.t, v: m.forceAll(x.v, depth+1)}
+	}
+	return v
+}
